@@ -152,6 +152,9 @@ class SphericalPolygonShape:
             Area of the spherical triangle in radians
         """
         # Calculate midpoints
+        _mid_a = vec3.create()
+        _mid_b = vec3.create()
+        _mid_c = vec3.create()
         vec3.lerp(_mid_a, v2, v3, 0.5)
         vec3.lerp(_mid_b, v3, v1, 0.5)
         vec3.lerp(_mid_c, v1, v2, 0.5)
@@ -195,7 +198,7 @@ class SphericalPolygonShape:
             return self._area
 
         # Calculate center of polygon
-        vec3.set(_center, 0, 0, 0)
+        _center = vec3.create()
         for vertex in self.vertices:
             vec3.add(_center, _center, vertex)
         vec3.normalize(_center, _center)
